@@ -18,6 +18,9 @@ pub struct Case {
     pub clips: Vec<Op>,
     pub layer: Option<(Fl, u8)>,
     pub draw: Op,
+    /// with a layer open: how many of the clips are popped *before* pop_layer (pops need not nest with the layer)
+    #[serde(default)]
+    pub early_pop: u8,
 }
 
 const WHITE: u32 = 0xffff_ffff;
@@ -168,11 +171,21 @@ pub fn check(c: &Case) -> CheckResult {
                     return Err(format!("{} into an open layer changed base-surface pixel ({},{}) from {} to {}", c.draw.kind(), i as i32 % w, i as i32 / w, hex(before[i]), hex(during[i])));
                 }
             }
+            // clips popped before the layer: the layer still only holds what was drawn through the clip in force
+            // while it was open, so pixels outside that clip have zero coverage by the layer.  (With an erasing
+            // layer blend mode the two readings "zero coverage" and "composited through the clip current at pop
+            // time" disagree about those pixels; they are then left unjudged.)
+            let early = (c.early_pop as usize).min(c.clips.len());
+            for _ in 0..early {
+                dt.pop_clip();
+            }
             dt.pop_layer();
             let after = dt.get_data();
+            let erasing_layer = matches!(*bl, 1 | 2 | 5 | 6 | 7 | 10);
+            o.class_if(early > 0, "clips-popped-before-layer");
             // pop_layer is itself a drawing call: its shape is the layer (= clip bounds)
             for i in 0..n {
-                if z_clip[i] {
+                if z_clip[i] && !(early > 0 && erasing_layer) {
                     o.judged += 1;
                     if after[i] != before[i] {
                         return Err(format!("pop_layer({}) changed pixel ({},{}) outside the clip from {} to {}", blend_name(*bl), i as i32 % w, i as i32 / w, hex(before[i]), hex(after[i])));
@@ -225,9 +238,13 @@ pub fn strategy(ctx: &Ctx) -> BoxedStrategy<Case> {
             let draw = prop_oneof![3 => draw_op(&ctx, &free), 2 => draw_op(&ctx, &exact)];
             let clip = prop_oneof![1 => clip_push(&free), 1 => clip_push(&exact)];
             let xf = prop_oneof![4 => Just(IDENT), 2 => xf_qtrans(), 3 => xf_invertible(4.0), 1 => xf_singular()];
-            (Just((w, h)), init_pixels(w, h), xf, prop::collection::vec(clip, 0..=3), prop::option::weighted(0.2, (alpha_f().prop_map(Fl), blend_biased())), draw)
+            (Just((w, h)), init_pixels(w, h), xf, prop::collection::vec(clip, 0..=3), prop::option::weighted(0.2, (alpha_f().prop_map(Fl), blend_biased())), draw, (0u8..3, 0usize..6))
         })
-        .prop_map(|((w, h), init, xf, clips, layer, draw)| Case { w, h, init, xf, clips, layer, draw })
+        .prop_map(|((w, h), init, xf, clips, layer, draw, (sel, k))| {
+            // one layer case in three pops some or all of its clips before the layer
+            let early_pop = if layer.is_some() && !clips.is_empty() && sel == 0 { 1 + (k % clips.len()) as u8 } else { 0 };
+            Case { w, h, init, xf, clips, layer, draw, early_pop }
+        })
         .boxed()
 }
 
@@ -235,13 +252,13 @@ pub fn property(ctx: &Ctx) -> Property {
     let c = ctx.clone();
     Property {
         id: "C02",
-        rule: "cases: 3..14 px surfaces (one in twenty 257..300 px long or tall) with random non-empty premultiplied contents, a transform (identity / quarter translation / general invertible / singular), 0-3 clips (rects of every relation to the surface, polygon and curved paths), optionally an open layer, then exactly one drawing call of each kind (fill, fill_rect, stroke, clear, mask, draw_image_at, draw_image_with_size_at; pop_layer when a layer is open) with any of 28 modes, any source, alpha, AA mode; shapes that do not cover the surface. Oracle: before/after snapshots; every pixel of the zero-coverage set (outside a pushed clip rectangle, zero coverage in a pushed clip path, zero coverage of the shape; while a layer is open: the whole base surface) must be bit-identical. Coverage comes from the exact 4x4 model for grid polygons, otherwise from an opaque-white SrcOver render of the same geometry on a fresh surface. Non-trivial: the zero-coverage set holds >=1 pixel inside the clip bounds with non-zero previous value, and (mode != SrcOver or source not opaque solid or layer open); distinct by hash of the case.",
+        rule: "cases: 3..14 px surfaces (one in twenty 257..300 px long or tall) with random non-empty premultiplied contents, a transform (identity / quarter translation / general invertible / singular), 0-3 clips (rects of every relation to the surface, polygon and curved paths), optionally an open layer (in a third of the layer cases some or all clips are popped before pop_layer), then exactly one drawing call of each kind (fill, fill_rect, stroke, clear, mask, draw_image_at, draw_image_with_size_at; pop_layer when a layer is open) with any of 28 modes, any source, alpha, AA mode; shapes that do not cover the surface. Oracle: before/after snapshots; every pixel of the zero-coverage set (outside a pushed clip rectangle, zero coverage in a pushed clip path, zero coverage of the shape; while a layer is open: the whole base surface) must be bit-identical. Coverage comes from the exact 4x4 model for grid polygons, otherwise from an opaque-white SrcOver render of the same geometry on a fresh surface. Non-trivial: the zero-coverage set holds >=1 pixel inside the clip bounds with non-zero previous value, and (mode != SrcOver or source not opaque solid or layer open); distinct by hash of the case.",
         assumptions: vec![
             "for shapes the exact model does not cover (curves, strokes, general transforms) zero coverage is read from a white SrcOver render of the same geometry: shares the rasteriser (judged by C01/C04/C08), not the compositing route under test",
             "mask() under a singular transform is not judged here (C11 accepts either reading)",
         ],
         parts: vec![part("one-call", 160_000, 2_000_000, move || strategy(&c), check)],
-        min_class_fraction: vec![("one-call", "erasing-mode", 0.15), ("one-call", "clipped", 0.4), ("one-call", "op:stroke", 0.05), ("one-call", "op:mask", 0.05), ("one-call", "layer-open", 0.1), ("one-call", "clip-path", 0.2)],
+        min_class_fraction: vec![("one-call", "erasing-mode", 0.15), ("one-call", "clipped", 0.4), ("one-call", "op:stroke", 0.05), ("one-call", "op:mask", 0.05), ("one-call", "layer-open", 0.1), ("one-call", "clips-popped-before-layer", 0.02), ("one-call", "clip-path", 0.2)],
         panic_is_violation: false,
     }
 }
